@@ -622,18 +622,24 @@ func (e StdEng) Outer(a, b, prealloc Tensor) (err error) {
 	var lda int
 	switch {
 	case pdo.IsColMajor():
-		aShape := a.Shape().Clone()
-		bShape := b.Shape().Clone()
-		if err = a.Reshape(aShape[0], 1); err != nil {
+		// a ⊗ b as the matrix product (m×1)(1×n), on second headers over the operands'
+		// storage: the operands themselves keep their shapes
+		aD, okA := a.(*Dense)
+		bD, okB := b.(*Dense)
+		if !okA || !okB {
+			return errors.Errorf("Outer into a column-major result is not yet implemented for %T and %T", a, b)
+		}
+		am := aD.ShallowClone()
+		defer ReturnTensor(am)
+		bm := bD.ShallowClone()
+		defer ReturnTensor(bm)
+		if err = am.Reshape(m, 1); err != nil {
 			return err
 		}
-		defer a.Reshape(aShape...)
-		if err = b.Reshape(1, bShape[0]); err != nil {
+		if err = bm.Reshape(1, n); err != nil {
 			return err
 		}
-		defer b.Reshape(bShape...)
-
-		return e.MatMul(a, b, prealloc)
+		return e.MatMul(am, bm, prealloc)
 
 	case pdo.IsRowMajor():
 		lda = pd.Shape()[1]
